@@ -1,4 +1,157 @@
-import Esp.Model.Conn
+import Esp.Props.C05
+/-!
+# C07 — stop callback exactly once per established session, with the right reason
+
+Property theorems over the connection LTS `Esp.Conn`.  Quantifier: every event list — all
+sequences of close causes (peer disconnect request, local disconnect / force, EOF, reset, write
+error, ping timeout, protocol error) in every order and multiplicity, at every lifecycle stage.
+`graceful` is the history variable "a local disconnect / force-disconnect call has been made, or a
+DisconnectRequest from the device has been dispatched"; `gracefulAtClose` is its value at the step
+that closed the connection.
+-/
 namespace Esp.C07
-theorem placeholder : True := trivial
+open Esp Conn
+
+/-- what one primitive does to the stop-callback view of the state -/
+inductive Stop (a b : State) : Prop
+  | same (h1 : b.st = a.st) (h2 : b.stops = a.stops) (h3 : b.onStopHeld = a.onStopHeld)
+      (h4 : b.everConnected = a.everConnected) (h5 : b.expected = a.expected) (h6 : b.graceful = a.graceful)
+      (h7 : b.gracefulAtClose = a.gracefulAtClose)
+  | mark (h1 : b.st = a.st) (h2 : b.stops = a.stops) (h3 : b.onStopHeld = a.onStopHeld)
+      (h4 : b.everConnected = a.everConnected) (h5 : b.expected = true) (h6 : b.graceful = true)
+      (h7 : b.gracefulAtClose = a.gracefulAtClose)
+  | clean (h1 : b.st = .closed)
+      (h2 : b.stops = if a.onStopHeld ∧ a.st = .connected then a.stops ++ [a.expected] else a.stops)
+      (h3 : b.onStopHeld = (a.onStopHeld && !decide (a.st = .connected)))
+      (h4 : b.everConnected = a.everConnected) (h5 : b.expected = a.expected) (h6 : b.graceful = a.graceful)
+      (h7 : b.gracefulAtClose = if a.st = .closed then a.gracefulAtClose else some a.graceful)
+  | advance (g : a.st = .init ∨ a.st = .sockOpen ∨ a.st = .hsDone) (gn : b.st = .sockOpen ∨ b.st = .hsDone) (h2 : b.stops = a.stops)
+      (h3 : b.onStopHeld = a.onStopHeld) (h4 : b.everConnected = a.everConnected) (h5 : b.expected = a.expected)
+      (h6 : b.graceful = a.graceful) (h7 : b.gracefulAtClose = a.gracefulAtClose)
+  | connected (g : a.st = .hsDone) (h1 : b.st = .connected) (h2 : b.stops = a.stops) (h3 : b.onStopHeld = a.onStopHeld)
+      (h4 : b.everConnected = true) (h5 : b.expected = a.expected) (h6 : b.graceful = a.graceful)
+      (h7 : b.gracefulAtClose = a.gracefulAtClose)
+
+set_option maxHeartbeats 1000000 in
+theorem prim_stop (a b : State) (hl : C05.Inv a) (p : Prim a b) : Stop a b := by
+  cases p
+  case cleanup => exact .clean rfl rfl (by simp [cleanup]) rfl rfl rfl rfl
+  case mark => exact .mark rfl rfl rfl rfl rfl rfl rfl
+  case sockOpened g1 g2 _ _ =>
+    refine .advance ?_ (Or.inl rfl) rfl rfl rfl rfl rfl rfl
+    rcases hl.startPend (Or.inr g1) with h | h
+    · exact Or.inl h
+    · exact absurd h g2
+  case hsEnter g1 g2 _ =>
+    refine .advance ?_ (Or.inr rfl) rfl rfl rfl rfl rfl rfl
+    rcases hl.finTr g1 with h | h | h
+    · exact Or.inr (Or.inl h)
+    · exact Or.inr (Or.inr h)
+    · exact absurd h g2
+  case connected g1 g2 _ _ _ =>
+    refine .connected ?_ rfl rfl rfl rfl rfl rfl rfl
+    rcases hl.finHello g1 with h | h
+    · exact h
+    · exact absurd h g2
+  case collect r _ => refine .same ?_ ?_ ?_ ?_ ?_ ?_ ?_ <;> (simp only [collect]; (repeat' split) <;> rfl)
+  case startFutCb => refine .same ?_ ?_ ?_ ?_ ?_ ?_ ?_ <;> (simp only [aStartFutCb]; split <;> rfl)
+  case finFutQuiet => refine .same ?_ ?_ ?_ ?_ ?_ ?_ ?_ <;> (simp only [aFinFutQuiet]; split <;> rfl)
+  case trCancelled => refine .same ?_ ?_ ?_ ?_ ?_ ?_ ?_ <;> (simp only [aTrCancelled]; split <;> rfl)
+  case finFutCb => refine .same ?_ ?_ ?_ ?_ ?_ ?_ ?_ <;> (simp only [aFinFutCb]; split <;> rfl)
+  all_goals exact .same rfl rfl rfl rfl rfl rfl rfl
+
+structure Inv (s : State) : Prop where
+  c1 : s.stops.length ≤ 1
+  c2 : s.onStopHeld = true ↔ s.stops = []
+  c3 : s.everConnected = false → s.stops = []
+  c4 : s.st = .connected → s.everConnected = true
+  c5 : s.everConnected = true → s.st = .connected ∨ s.st = .closed
+  c6 : s.everConnected = true → s.st = .closed → s.stops.length = 1
+  c7 : s.expected = s.graceful
+  c8 : s.st ≠ .closed → s.gracefulAtClose = none
+  c9 : s.st = .closed → s.gracefulAtClose ≠ none
+  c10 : ∀ b, s.stops = [b] → s.gracefulAtClose = some b
+  c11 : s.stops ≠ [] → s.st = .closed
+
+theorem init_inv (noise login : Bool) : Inv { noise := noise, login := login } := by
+  constructor <;> simp
+
+theorem stop_inv (a b : State) (h : Inv a) (l : Stop a b) : Inv b := by
+  obtain ⟨c1, c2, c3, c4, c5, c6, c7, c8, c9, c10, c11⟩ := h
+  cases l with
+  | same h1 h2 h3 h4 h5 h6 h7 => constructor <;> grind
+  | mark h1 h2 h3 h4 h5 h6 h7 => constructor <;> grind
+  | advance g gn h2 h3 h4 h5 h6 h7 => constructor <;> grind
+  | connected g h1 h2 h3 h4 h5 h6 h7 => constructor <;> grind
+  | clean h1 h2 h3 h4 h5 h6 h7 =>
+    by_cases hh : a.onStopHeld = true ∧ a.st = .connected
+    · obtain ⟨hh1, hh2⟩ := hh
+      have hs : a.stops = [] := c2.mp hh1
+      simp only [hh1, hh2, and_self, ↓reduceIte, hs, List.nil_append] at h2
+      constructor <;> grind
+    · rw [if_neg hh] at h2
+      constructor <;> grind
+
+
+/-- both invariants together along every chain of primitives -/
+theorem reach_inv (a b : State) (h1 : C05.Inv a) (h2 : Inv a) (r : Reach a b) : C05.Inv b ∧ Inv b := by
+  induction r with
+  | refl => exact ⟨h1, h2⟩
+  | snoc _ p ih => exact ⟨C05.prim_inv _ _ ih.1 p, stop_inv _ _ ih.2 (prim_stop _ _ ih.1 p)⟩
+
+theorem run_inv (noise login : Bool) (evs : List Ev) : Inv (run { noise := noise, login := login } evs) :=
+  (reach_inv _ _ (C05.init_inv noise login) (init_inv noise login) (run_reach _ evs)).2
+
+/-! ## the property theorems (every event list) -/
+
+/-- **C07 (at most once).** -/
+theorem c07_at_most_once (noise login : Bool) (evs : List Ev) :
+    (run { noise := noise, login := login } evs).stops.length ≤ 1 := (run_inv noise login evs).c1
+
+/-- **C07 (exactly once iff a session was established and has ended).**  The stop callback has been
+invoked (exactly once) iff the connection reached the connected state at some point and is now
+closed; a connection that never reached connected never invokes it, however it fails. -/
+theorem c07_exactly (noise login : Bool) (evs : List Ev) :
+    let s := run { noise := noise, login := login } evs
+    (s.stops.length = 1 ↔ (s.everConnected = true ∧ s.st = .closed)) ∧ (s.everConnected = false → s.stops = []) := by
+  intro s
+  have h := run_inv noise login evs
+  refine ⟨⟨fun hl => ?_, fun ⟨h1, h2⟩ => h.c6 h1 h2⟩, h.c3⟩
+  have hne : s.stops ≠ [] := by intro hc; rw [hc] at hl; simp at hl
+  refine ⟨?_, h.c11 hne⟩
+  cases he : s.everConnected with
+  | true => rfl
+  | false => exact absurd (h.c3 he) hne
+
+/-- **C07 (the right reason).**  The argument the callback received is the value the history
+variable `graceful` had at the step that closed the connection: true iff a local disconnect or
+force-disconnect call had been made, or a DisconnectRequest from the device had been dispatched,
+before the connection closed.  (`expected = graceful` at every point: the marker is exactly
+that history.) -/
+theorem c07_reason (noise login : Bool) (evs : List Ev) (b : Bool) :
+    let s := run { noise := noise, login := login } evs
+    (s.stops = [b] → s.gracefulAtClose = some b) ∧ s.expected = s.graceful ∧
+    (s.st ≠ .closed → s.gracefulAtClose = none) := by
+  intro s
+  have h := run_inv noise login evs
+  exact ⟨h.c10 b, h.c7, h.c8⟩
+
+/-! ## non-vacuity -/
+
+def happy : List Ev := [.callStart, .resolved true, .wakeStart, .sockDone true, .wakeStart, .callFinish, .connMade,
+    .wakeFinish, .data [.hresp (.hello true true)], .wakeFinish]
+
+/-- three close causes in a row after an established session: one call, unexpected -/
+example : (run {} (happy ++ [.reset, .lost, .eof, .firePong, .force])).stops = [false] := by decide +kernel
+/-- peer DisconnectRequest, then reset, then a local disconnect: one call, expected -/
+example : (run {} (happy ++ [.data [.discReq], .reset, .lost, .callDisc])).stops = [true] := by decide +kernel
+/-- disconnect() called while the connect is finishing, connect finishes, reset before the
+disconnect task resumes: expected (the marker is set on entry) -/
+example : (run {} [.callStart, .resolved true, .wakeStart, .sockDone true, .wakeStart, .callFinish, .connMade,
+    .wakeFinish, .callDisc, .data [.hresp (.hello true true)], .wakeFinish, .reset, .lost]).stops = [true] := by
+  decide +kernel
+/-- a connection that fails during the hello never invokes the callback -/
+example : (run {} [.callStart, .resolved true, .wakeStart, .sockDone true, .wakeStart, .callFinish, .connMade,
+    .wakeFinish, .data [.hresp (.hello false true)], .wakeFinish, .force, .eof]).stops = [] := by decide +kernel
+
 end Esp.C07
